@@ -69,6 +69,10 @@ func classText(kind, cls string) (string, bool) {
 		if kind == "string" {
 			return "a b/c?d&e=f%25+g#h;i", true
 		}
+	case "padded":
+		if kind == "string" {
+			return "  padded value \t\u00a0", true
+		}
 	}
 	return "", false
 }
